@@ -79,6 +79,7 @@ RULE_DOC = {
     "R-PARTIAL-SAME": "full and partial opens share one implementation, differing only in the range",
     "R-ZXY-GUARD": "coordinate lookup converts only when z ≤ 31 and x,y < 2^z, else answers no tile",
     "R-REJ-META": "metadata is accepted only through the Value::Object pattern",
+    "R-SEEK-AFTER-CODEC": "after a read through a buffering/decoding wrapper the raw position is unspecified: every later read first seeks absolutely",
     "R-FINDZ": "the zoom search returns a zoom only under the strict test id < end of that zoom's block, over zooms 1..=31, else an error",
     "R-HILBERT-CALL": "both conversions call hilbert_2d with the arguments in order, Variant::Hilbert, and the zoom base 1 + Σ4^i",
 }
@@ -93,7 +94,7 @@ def prop(pid, rules, explanation, decides, does_not_decide, **kw):
 RUNTIME = "run-time equalities over all inputs (round trips, byte equality with independent codecs) — quantify over values; only the named structural necessary conditions are decided"
 
 prop("C01", [rw.r_layout_w, rw.r_fieldmap_w, rr.r_fieldmap_r, rr.r_addr_open, rr.r_exact_tile, rh.r_round, st.r_hashid, st.r_finish_pair, st.r_rle_dep, st.r_order,
-              rs.r_budget, rs.r_leafptr, rs.r_reseek, rd.r_cols_reader, rd.r_cols_writer, rr.r_walk, rr.r_meta0, rh.r_hdr_io, st.r_add_pair, st.r_remove_guard, st.r_lookup, rt.r_factory, rr.r_bounded_read],
+              rs.r_budget, rs.r_leafptr, rs.r_reseek, rd.r_cols_reader, rd.r_cols_writer, rr.r_walk, rr.r_meta0, rh.r_hdr_io, st.r_add_pair, st.r_remove_guard, st.r_lookup, rt.r_factory, rr.r_bounded_read, rr.r_seek_after_codec],
      "Necessary conditions of the write→read round trip, decided on both twins: header settings are paired field by field in writer and opener (R-FIELDMAP), section "
      "offsets/lengths equal the measured writes (R-LAYOUT-W, affine stream model), the opener rebases entry offsets by tile_data_offset and the lookup reads exactly "
      "(offset,length) (R-ADDR/R-EXACT-TILE), coordinates are rounded to nearest (R-ROUND), contents are laid out once with offsets read before the append "
@@ -109,7 +110,7 @@ prop("C02", [rh.r_hdr_layout, rw.r_hdr_const, rw.r_layout_w, rs.r_budget, rs.r_l
      ["R-HDR-LAYOUT", "R-HDR-CONST", "R-LAYOUT-W", "R-BUDGET", "R-COUNTERS", "R-FINISH-PAIR", "R-ORDER", "R-CLUSTERED", "R-COLS (encoder)", "metadata field is a JSON object map (type fact)"],
      [RUNTIME, "that directories decode with an independent reader", "the spec's lookup procedure on produced files"])
 
-prop("C03", [rr.r_walk, rr.r_addr_open, rr.r_exact_tile, rr.r_meta0, rr.r_fieldmap_r, rr.r_find, rd.r_cols_reader, rr.r_rej_meta, rr.r_bounded_read, rh.r_hdr_io, rt.r_factory],
+prop("C03", [rr.r_walk, rr.r_addr_open, rr.r_exact_tile, rr.r_meta0, rr.r_fieldmap_r, rr.r_find, rd.r_cols_reader, rr.r_rej_meta, rr.r_bounded_read, rh.r_hdr_io, rt.r_factory, rr.r_seek_after_codec],
      "The opener, directory walker, decoder and lazy fetch are checked path by path: runs are expanded for the entry whose offset/length are stored, recursion uses "
      "leaf base + entry offset and the entry's length, leaf/tile dispatch is on run_length == 0, tile addresses are rebased by tile_data_offset, metadata length 0 "
      "yields an empty object without reads, settings are reported from the header fields, single-directory lookup uses !leaf && range.contains.",
@@ -171,14 +172,14 @@ prop("C11", [tt.r_range_end, tt.r_leaf_skip_and_filter, tt.r_partial_same, rr.r_
      ["R-RANGE-END", "R-FILTER-GUARD", "R-LEAF-SKIP", "R-PARTIAL-SAME"],
      [RUNTIME])
 
-prop("C12", [rt.r_twin, rt.r_factory, rd.r_dir_twins],
+prop("C12", [rt.r_twin, rt.r_factory, rd.r_dir_twins, rr.r_seek_after_codec],
      "Sibling agreement on code the test suite never compiles: every sync/async pair instantiated from one duplicate_item template must be isomorphic after making "
      "`?`, .await and async blocks transparent and mapping callees through the twin table (Read↔AsyncReadExt, flush↔close for codec writers, read_varint↔_async, local "
      "f↔f_async; integer type arguments must agree); hand-written pairs must have the same stream-effect/parser skeleton; the four codec factories must agree per variant.",
      ["R-TWIN", "R-TWIN-HAND", "R-FACTORY"],
      [RUNTIME, "byte identity of codec outputs"], needs_all_configs=True)
 
-prop("C13", [rt.r_xfer_rule, rt.r_xfer_inventory, rt.r_nopoll, rh.r_hdr_io, rt.r_result_used],
+prop("C13", [rt.r_xfer_rule, rt.r_xfer_inventory, rt.r_nopoll, rh.r_hdr_io, rt.r_result_used, rr.r_seek_after_codec],
      "Transfer discipline: no call to a short-transfer primitive (read/write/read_vectored/poll_*) exists in the crate; every stream transfer goes through read_exact, "
      "read_to_end, write_all, the varint traits, serde_json's reader or a codec adapter (inventory in the evidence); the crate implements no Future/AsyncRead/"
      "AsyncWrite/Stream itself and touches no poll/waker API, so fragmentation and Pending are handled entirely inside the trusted libraries.",
@@ -225,7 +226,7 @@ prop("C19", [st.r_rej_empty, rd.r_len0_err, rd.r_cols_reader, rd.r_cols_writer, 
      ["R-REJ-EMPTY", "R-LEN0", "R-REJ-META", "R-REJ-UNKNOWN"],
      ["'leaves the archive unchanged' beyond 'no mutation before the guard'"])
 
-prop("C20", [rr.r_lazy, rr.r_bounded_read, rr.r_exact_tile, rh.r_hdr_io, rr.r_walk, rr.r_meta0, rr.r_addr_open],
+prop("C20", [rr.r_lazy, rr.r_bounded_read, rr.r_exact_tile, rh.r_hdr_io, rr.r_walk, rr.r_meta0, rr.r_addr_open, rr.r_seek_after_codec],
      "Call-graph and read-summary analysis: no function that fetches tile bytes is reachable from the opener; registering a tile has no stream effect; every read on "
      "the open path is the fixed 127-byte header read or goes through take(len) after seek(Start(off)) with (off,len) a header-declared section or the walker's leaf "
      "pair; a lookup seeks to the stored offset and performs exactly one read_exact of the stored length.",
